@@ -104,3 +104,14 @@ func TapeAt(t []int, i int, def int) int {
 	}
 	return t[i%len(t)]
 }
+
+// TapeAtF reads a cyclic float tape; an empty tape yields 0.
+func TapeAtF(t []float64, i int) float64 {
+	if len(t) == 0 {
+		return 0
+	}
+	if i < 0 {
+		i = -i
+	}
+	return t[i%len(t)]
+}
